@@ -205,3 +205,7 @@ def run(prog, rep, tier):
         runner.run_entry(E, fb)
         n += rep.absorb_engine(E, rule='R3-index-in-range', keyfilter=lambda o: 'index' in o['kind'] or 'BoundsCheck' in o['kind'])
     rep.floor('character-table index obligations', n, 2)
+    # the 13-bit altitude conversion (Gillham branch, cast to u16) and the squawk permutation are mechanisms of this
+    # property too: C13's rules (permutation -> four octal digits, Gray tables, 25*N - 1000, no lossy cast) run here as well
+    from props import c13
+    c13.run(prog, util.Prefixed(rep, 'R4-altitude-identity/'), tier)
